@@ -93,3 +93,29 @@ Example canon_codes_example :
   map (fun p => cn_of (template true false sG sH) (snd p)) (gnodes (template true false sG sH)) = [0%N; 0%N] /\
   C11_Model.prune (fun m : C03_Model.mapping => m) (rule_graph (template true false sG sH)) s_raw = [[(1%N, 2%N); (2%N, 1%N)]].
 Proof. vm_compute. split; reflexivity. Qed.
+
+(** C04_identity_default_end / C04_explicit_h_keeps_reaction: bromoethane + water written with explicit centre hydrogens
+    (dG / dH of proof/C04_Examples.v), centre and full ITS, forwards and backwards: the hypotheses hold (d_default_hyps),
+    _explicit_h does not raise on the glued ITS, it adds one hydrogen atom, and the result decomposes to the reaction in
+    implicit-hydrogen normal form *)
+From SK Require Import proof.C04_DefaultEnd.
+Definition d_glued (core invert : bool) : option its :=
+  match rule_of core invert dG dH with
+  | Some (rc, l, _) => glue (substrate invert dG dH) rc (id_map (node_ids (pattern_of l)))
+  | None => None
+  end.
+Example d_end_hyps :
+  forallb (fun ci : bool * bool => match d_glued (fst ci) (snd ci) with
+                                   | Some T => match explicit_h T with
+                                               | Some (T', ms) => Nat.eqb (length ms) 1 && Nat.eqb (length (gnodes T')) (S (length (gnodes T)))
+                                               | None => false end
+                                   | None => false end)
+          [(true, false); (false, false); (true, true); (false, true)] = true.
+Proof. vm_compute. reflexivity. Qed.
+Example d_end_regenerates :
+  forallb (fun ci : bool * bool => match regenerate (fst ci) (snd ci) dG dH with
+                                   | Some T' => regen_folded T' (if snd ci then dH else dG) (if snd ci then dG else dH)
+                                                && negb (regen_exact T' (if snd ci then dH else dG) (if snd ci then dG else dH))
+                                   | None => false end)
+          [(true, false); (false, false); (true, true); (false, true)] = true.
+Proof. vm_compute. reflexivity. Qed.
